@@ -734,6 +734,55 @@ impl BoardMonitor for C07 {
                 }
             }
         }
+        // single-aspect neighbours: a board that differs from this one in exactly one recorded field
+        // (EP file, one castling right, either clock) prints a different text, so it must compare unequal
+        if let Ok(bd0) = guard(|| BoardBuilder::from_board(b)) {
+            let mut neigh: Vec<(&'static str, BoardBuilder)> = Vec::new();
+            if bd0.en_passant.is_some() {
+                let mut n = bd0.clone();
+                n.en_passant = None;
+                neigh.push(("ep-cleared", n));
+            }
+            for c in 0..2 {
+                if bd0.castle_rights[c].short.is_some() {
+                    let mut n = bd0.clone();
+                    n.castle_rights[c].short = None;
+                    neigh.push(("short-right-removed", n));
+                }
+                if bd0.castle_rights[c].long.is_some() {
+                    let mut n = bd0.clone();
+                    n.castle_rights[c].long = None;
+                    neigh.push(("long-right-removed", n));
+                }
+            }
+            {
+                let mut n = bd0.clone();
+                n.halfmove_clock = if bd0.halfmove_clock >= 100 { 99 } else { bd0.halfmove_clock + 1 };
+                neigh.push(("halfmove-clock-changed", n));
+                let mut n = bd0.clone();
+                n.fullmove_number = if bd0.fullmove_number == u16::MAX { u16::MAX - 1 } else { bd0.fullmove_number + 1 };
+                neigh.push(("fullmove-number-changed", n));
+            }
+            for (what, n) in neigh {
+                if let Ok(Some(nb)) = guard(|| n.build().ok()) {
+                    if let Ok(ns) = guard(|| format!("{:#}", nb)) {
+                        cx.count("single-aspect-neighbours-compared");
+                        let eq_b = guard(|| nb == *b && *b == nb).unwrap_or(false);
+                        if eq_b != (ns == s) {
+                            board_violation(
+                                cx,
+                                "C07",
+                                format!("equality-vs-text|neighbour={}|boards-equal={}|texts-equal={}", what, eq_b, ns == s),
+                                format!("neighbour ({}) '{}' vs '{}': boards equal {}, texts equal {}", what, ns, s, eq_b, ns == s),
+                                b,
+                                m,
+                                ev,
+                            );
+                        }
+                    }
+                }
+            }
+        }
         if m.ep.is_some() {
             cx.count("with-ep-file");
         }
